@@ -38,7 +38,7 @@ TEXT = {
          "with missing, extra and hostile fields; the password-policy clause is decided by the Rules component when built.",
          "DESIGN.md 5 C19"),
  'C02': ("2FA second-step model (twofa, smsswitch families: victim with TOTP, attacker-owned SMS account, both-SMS accounts, pending-login "
-         "switches inside the resend limit, recover-and-login, OTP logins) model-checked; clauses primaryOnlyParks and secondStepOwnFactor "
+         "switches inside the resend limit, recover-and-login, OTP logins, remember-me requested on the primary step) model-checked; clauses primaryOnlyParks, noRememberOnPrimaryAlone and secondStepOwnFactor "
          "(SMS codes are tied to the phone they were sent to through a ghost relation fed by the SMS outbox) on every observed step.", "DESIGN.md 5 C02"),
  'C08': ("The middleware decision table (864 rows: session contents x requirement bits x refusal mode x mount-path x storage outcome) is a "
          "TLA+ spec checked exhaustively (AdmitIff, RefusalExact); every row is executed against the real Middleware2/MountedMiddleware2 "
@@ -49,7 +49,7 @@ TEXT = {
  'C12': ("One-time password / recovery code / SMS code / TOTP replay life cycles model-checked (otp, twofa families); a ghost registry of "
          "every secret that ever stopped being live makes a second acceptance visible even when storage was not updated.", "DESIGN.md 5 C12"),
  'C13': ("Enrolment / removal / regeneration / e-mail authorisation model-checked from logged-in, cookie-only (half-auth), pending and "
-         "anonymous sessions; clauses changeAuthorised, enableNeedsProof, disableNeedsProof, emailAuthorised, emailAuthSound.", "DESIGN.md 5 C13"),
+         "anonymous sessions, and from established worlds (plain / SMS-2FA / TOTP-2FA sessions, a half-authenticated TOTP account, an application calling remember.Authenticate itself); clauses changeAuthorised, enableNeedsProof, disableNeedsProof, emailAuthorised, emailAuthSound.", "DESIGN.md 5 C13"),
  'C14': ("OAuth2 start/callback interleavings across browsers and providers model-checked (state replay, cross-browser state, provider "
          "error, exchange failure under both error handlers); PID codec round trip and injectivity enumerated by TLC and executed.", "DESIGN.md 5 C14"),
  'C15': ("Browser URL resolution (worst case over concretisations) and the guard as a TLA+ spec over 12 URL-significant symbols; "
@@ -58,7 +58,7 @@ TEXT = {
  'C16': ("Non-interference stated as a TLA+ state invariant over the pure step function (every reachable state of the lock/recover/otp "
          "families); on the code, forked paired replay with byte-level comparison of status, headers, body and client-state events.", "DESIGN.md 5 C16"),
  'C17': ("Every step of every replayed/random scenario is scanned for every plaintext secret known to the harness in all stored fields "
-         "and log lines (clause noPlaintextStoredOrLogged); mail recipients are compared with the owner of the mailed token.", "DESIGN.md 5 C17"),
+         "and log lines (clause noPlaintextStoredOrLogged), also on steps with an injected backend failure (a mail whose delivery failed is still a secret the scanner knows); mail recipients are compared with the owner of the mailed token.", "DESIGN.md 5 C17"),
  'C18': ("The specification models every backend call site of every flow (call protocol conformance is checked on every fault-free step) and what "
          "the code does when that call fails; TLC checks noPanic, noFakeSuccess, noSessionOnUnsavedConsumption, onlyInvalidates, consumedStaysConsumed, "
          "nothingUnissuedBecomesLive on every transition of the fault families (each call index x error kind x error handler x response mode). On the "
